@@ -560,6 +560,18 @@ def case_key(c):
     return vlib.sha(json.dumps([c.get("mode", "memfs"), sorted(map(list, c["files"])), c.get("include_dir"), c["history"]], sort_keys=True))
 
 
+def run_isolated(bindir, cases, timeout_ms=4000, workers=None):
+    """every case in a NEW hostdrive process (a freshly started analysis, literally: no process-wide state of an
+    earlier analysis can leak into it); same result shapes as run_harness"""
+    from concurrent.futures import ThreadPoolExecutor
+
+    def one(c):
+        r = run_harness(bindir, [c], timeout_ms, stop_after_hangs=1)
+        return r[0] if r else {"crash": -1}
+    with ThreadPoolExecutor(max_workers=workers or max(2, min(8, vlib.NCPU - 2))) as ex:
+        return list(ex.map(one, cases))
+
+
 def fresh_case(case, k, full=False):
     """the fresh host of C07 for the state after the first k+1 operations: it is given only the
     final file contents (disk overlaid by every touched text) and touches the final root once"""
@@ -569,6 +581,7 @@ def fresh_case(case, k, full=False):
          "history": [["touch", root, fsys[root]]]}
     if full:
         c["full"] = True
+    c["host_only"] = True
     return c
 
 
@@ -577,6 +590,9 @@ def proj_inputs(s):
     (= the [view] of the C07 theorem) plus every query result"""
     files = s.get("files") or []
     fset = set(files)
+    if "host" in s:      # the real AnalysisHost disagrees with the harness' own database: the property speaks of the host
+        s = dict(s, diagnostics=s["host"]["diagnostics"], links=s["host"]["links"], outline=s["host"]["outline"],
+                 diag_keys=sorted(s["host"]["diagnostics"]))
     o = {"root": s.get("root"), "files": sorted(files),
          "file_content": {p: c for p, c in s["fc"] if p in fset},
          "resolved_include_map": {p: (None if m is None else sorted(map(list, m))) for p, m in s["rim"] if p in fset},
